@@ -1,6 +1,7 @@
 package h
 
 import (
+	"time"
 	"fmt"
 	"sort"
 	"strings"
@@ -171,6 +172,28 @@ func init() {
 		}})
 	RegisterScenario(&Scenario{Name: "O-open2/disk", Prop: []string{"C13"}, Disk: true, NoOpen: true, Setup: setup,
 		Threads: [][]SOp{openProbeClose(rosmar.ReOpenExisting, false), openProbeClose(rosmar.CreateOrOpen, true)}, Check: check("O-open2/disk")})
+	// the same race on a bucket with a pending expiry; afterwards time passes: a timer armed by an opener
+	// that lost the race (and was closed) must not fire on its closed store, and the document still expires
+	setupExp := func(w *SWorld) {
+		b, err := rosmar.OpenBucket(BucketURL(w.Cfg, "b1"), "b1", rosmar.CreateNew)
+		must(err)
+		must(coll(b, NameA).SetRaw("m", 0, nil, []byte("marker")))
+		must(coll(b, NameA).SetRaw("e", 10, nil, []byte("expiring")))
+		b.Close(ctx)
+	}
+	RegisterScenario(&Scenario{Name: "O-open2-pending-expiry/disk", Prop: []string{"C13", "C20"}, Disk: true, NoOpen: true, Setup: setupExp,
+		Threads: [][]SOp{openProbeClose(rosmar.ReOpenExisting, false), openProbeClose(rosmar.CreateOrOpen, false)},
+		Check: func(w *SWorld, ops []OpRec, final string) []Violation {
+			vs := check("O-open2-pending-expiry/disk")(w, ops, final)
+			vrt.Advance(120 * time.Second)
+			vrt.Quiesce()
+			if len(w.Extra) > 0 {
+				if _, _, err := coll(w.Extra[len(w.Extra)-1], NameA).GetRaw("e"); err == nil {
+					vs = append(vs, Violation{Prop: "C14", Op: "O-open2-pending-expiry/disk", Pre: "sched", Field: "outlived", Detail: "the document with a pending expiry is still readable 110 s after its deadline in the reopened bucket"})
+				}
+			}
+			return vs
+		}})
 	RegisterScenario(&Scenario{Name: "O-open3/disk", Prop: []string{"C13"}, Disk: true, NoOpen: true, Setup: setup,
 		Threads: [][]SOp{openProbeClose(rosmar.ReOpenExisting, false), openProbeClose(rosmar.ReOpenExisting, false), openProbeClose(rosmar.CreateOrOpen, false)}, Check: check("O-open3/disk")})
 }
